@@ -107,6 +107,10 @@ class SystemWZ3(Inference):
                 contra_solver.add(c.make_not_A_or_B())
             if contra_solver.check() == unsat:
                 return True
+            if len(self.epistemic_state["partition"]) < 2:
+                # no finite layer: all feasible worlds are equally plausible and A and not B is
+                # feasible (checked above), so the query does not hold
+                return False
 
             # worlds falsifying a conditional of the infinity layer are infeasible
             for c in self.epistemic_state["partition"][-1]:
